@@ -134,6 +134,35 @@ def run(eng, R):
 
     check_snapshot_complete(eng, R, "Csl")
 
+    # ---- nobody keeps a reference to a fit's fitter / minimizer: the fit replaces them (MultiFit members, first shared error) and a kept one still writes into the shared nodes
+    R.rule("Cref", "objects working on a fit (profiler, plots, wrappers) reach its fitter / minimizer through the fit at the time of the query; none stores the reference", 1)
+    fitbase = p.find_class("FitBase")
+    n_cls = 0
+    for m in p.modules.values():
+        for cls in m.classes.values():
+            if fitbase in cls.mro or cls.name in ("NexusFitter",) or cls.name.startswith("Minimizer"):
+                continue
+            uses = any("_fitter" in ast.unparse(fn.node) for fn in cls.methods.values())
+            if not uses:
+                continue
+            n_cls += 1
+            bad = []
+            for fn in cls.methods.values():
+                for a in ast.walk(fn.node):
+                    if isinstance(a, ast.Assign) and any(self_attr(t) for t in a.targets):
+                        v = a.value
+                        chain = []
+                        while isinstance(v, ast.Attribute):
+                            chain.append(v.attr)
+                            v = v.value
+                        if any(x in ("_fitter", "_minimizer", "minimizer") for x in chain):
+                            bad.append("%s: %s" % (fn.qualname, " ".join(ast.unparse(a).split())[:70]))
+            R.ob("Cref", cls.name, not bad, (m.relpath, 0),
+                 "%s keeps a reference to a fit's fitter / minimizer (%s): after the fit replaced it, queries go to the discarded object, which accepts them and writes its old "
+                 "minimum back into the fit's parameter nodes" % (cls.name, "; ".join(bad)))
+    if n_cls < 1:
+        raise AnalysisError("Cref: no class outside the fit hierarchy uses a fit's fitter")
+
     # ---- generic helpers of MinimizerBase (analysed for both adapters' contexts through the queries above) + fix/release pairing
     for fn in ("_get_cost_value",):
         f = p.method(MB, fn)
